@@ -575,3 +575,10 @@ def rev8(b):
     """bit reversal of a symbolic byte (0..255), built in one step"""
     t = uterm(b, 8)
     return mk(concat([extract(i, i, t) for i in range(8)]), 0, 255)
+
+def refine_nonneg(b):
+    """the same value as b, typed as non-negative (the caller has established b >= 0 on the current path)"""
+    if not isinstance(b, SymInt) or b.lo >= 0: return b
+    if b.hi <= 0: return 0
+    w, _ = bits_for(0, b.hi)
+    return mk(extract(w - 1, 0, b.t) if b.w > w else b.t, 0, b.hi)
